@@ -8,19 +8,29 @@ From Coq Require Import List NArith Bool Arith.
 From SNT Require Export Render.Cell Render.Screen Render.Frame.
 Import ListNotations.
 
+(* the terminal side of one operation: execute the commands; a resize then replaces the cells *)
+Definition screen_step (o : oracle) (scr : screen) (x : op) (cs : list cmd) : screen :=
+  let scr' := exec_list o scr cs in
+  match x with
+  | Resize h w g => mkscreen h w g (places scr') (cur scr') (pen scr') (err scr')
+  | _ => scr'
+  end.
+
 Fixpoint spec_run (o : oracle) (h w : nat) (scr : screen) (drawn : grid cell)
          (ops : list op) (impl : list (list cmd)) : bool :=
   match ops, impl with
   | [], [] => true
   | x :: ops', cs :: impl' =>
-      let scr' := exec_list o scr cs in
+      let scr' := screen_step o scr x cs in
       negb (err scr')
       && match x with
          | Draw g => spec_run o h w scr' g ops' impl'
          | Frame => same_display scr' (show o h w drawn)
                     && spec_run o h w scr' (gmake h w cell_default) ops' impl'
+         | Clear => spec_run o h w scr' drawn ops' impl'
+             (* clear() forces the next frame to repaint; what the application drew stays drawn *)
+         | Resize h' w' _ => spec_run o h' w' scr' (gmake h' w' cell_default) ops' impl'
          | _ => spec_run o h w scr' (gmake h w cell_default) ops' impl'
          end
   | _, _ => false
   end.
-
